@@ -136,7 +136,7 @@ func checkC17(r *mon.Run) {
 		return
 	}
 	rng := r.Rand("c17")
-	n := r.Pick(240, 4000)
+	n := r.Pick(240, 2400)
 	for i := 0; i < n; i++ {
 		w := genCfg(rng)
 		w.Order = rfix.LocalOrder(i % int(rfix.NumLocalOrders)).String()
